@@ -602,6 +602,8 @@ class tcp (packet_base):
         raise RuntimeError("Very truncated TCP option")
       if i + arr[i+1] > dlen:
         raise RuntimeError("Truncated TCP option")
+      if i + arr[i+1] > self.hdr_len:
+        raise RuntimeError("TCP option extends past the header")
       if arr[i+1] < 2:
         raise RuntimeError("Illegal TCP option length")
 
